@@ -103,6 +103,11 @@ func TestC11(t *testing.T) {
 			for _, viaRaw := range []bool{true, false} {
 				g := w.NewGetter()
 				o := w.Options(l, g, pool)
+				if pk := prehistoryKind(w.Raw[len(w.Raw)/2:]); pk != 0 && viaRaw {
+					// an options value that has been in use (earlier failing calls) accepts the honest quote all the same
+					optionsPrehistory(w.Raw, o, pk, w.NewGetter())
+					gen.Class("options-value-used-before")
+				}
 				gen.Eval()
 				var v gen.Verdict
 				if viaRaw {
